@@ -52,6 +52,15 @@ PROP = dict(
         "oracles: deep snapshot (reflective walk incl. unexported fields, SHA-256 of the raw memory, slices by content) of every shared "
         "argument before/after; byte equality of the canonical serialisation of every result with the first sequential result of the "
         "entry in the process; the Go race detector (jobs built with -race, GORACE=halt_on_error=1)",
+        "returned values belong to the caller: for every entry point whose result holds references (pointers, slices, maps, big.Ints: "
+        "GetEdwardsCurve of all 8 Edwards packages, mimc.GetConstants, poseidon2.GetDefaultParameters/NewParameters, Modulus/ScalarField/"
+        "BaseField, hash Sum/State outputs, Compress, Batch* results, BatchOpenSinglePoint, InterpolateOnRange, fr.Hash, BatchInvert, "
+        "MarshalBinary, Sign, PublicKey.Bytes) the harness overwrites the returned value in place after every call (class scribble_returned: "
+        "flat slice/array memory and big.Int limbs inverted, struct fields zeroed; only memory a caller can reach: references held by "
+        "unexported fields are dropped, not written through) and the next call must return the first result, sequentially and concurrently",
+        "exempt from scribbling, reported as notes: receiver accessors of caller-owned objects that hand out the receiver's storage "
+        "(fft.Domain.Twiddles/TwiddlesInv/CosetTable/CosetTableInv: undocumented, probed; iop.Polynomial.Coefficients: documented "
+        "'returns a slice on the underlying data structure'); types exposing exported fields only (kzg.SRS)",
         "goroutine scheduling is the only input not controlled by the rapid seed; a race needing an interleaving the runtime does not "
         "produce under the varied g / GOMAXPROCS / yields / -race instrumentation can be missed; timing is never used as a signal",
         "shared inputs are a deterministic function of VERIF_SEED (SHA-256 counter stream); ECDSA signatures are produced once with the "
@@ -65,7 +74,7 @@ PROP = dict(
         "the portable Go kernels are instrumented (small fields + misc in full, bn254 reduced in quick; all four curves reduced in thorough)",
         "every entry point is also exercised deterministically (sweep): 3 interleaved sequential calls and 4 concurrent goroutines x 2 calls",
     ],
-    mandatory_all=["g=2", "g=3", "g=8", "g=64", "P=1", "P=2", "P=3", "P=8", "P=16", "k=2", "k=5", "mode:same", "mode:pair", "mode:mix"],
+    mandatory_all=["scribble_returned", "g=2", "g=3", "g=8", "g=64", "P=1", "P=2", "P=3", "P=8", "P=16", "k=2", "k=5", "mode:same", "mode:pair", "mode:mix"],
     jobs=[
         # lazily initialised Edwards parameters: every point method cold vs warm, one fresh process per method (shared with C02)
         dict(name="coldstart-edwards", pkg="c02/uninit", run="^TestC02_ColdStart$", rapid=False),
